@@ -184,3 +184,38 @@ Definition check_accumulate (r : routine) (impl : impl_result) (inexact : bool) 
                                    else []) (sort_dedup (resource_names (S (height r)) r))) pts)%list
    | IErr _ => []
    end).
+
+(* ---------- C06: size mismatches are detected, consistent sizes are never rejected ---------- *)
+(* evals: total integer assignments of the top-level inputs with the implementation's outcome class for each
+   ("ok", "BartiqCompilationError", or another class); impl: the implementation's compile outcome *)
+Definition check_mismatch_case (r : routine) (impl : impl_result) (evals : list (list (string * Q) * string))
+  : list nat * list nat :=
+  let b2n (b : bool) := if b then 0%nat else 1%nat in
+  let model := compile_routine r in
+  let tie_compile_cls :=
+      match model, impl with
+      | Ok _, IOk _ => 0%nat
+      | res, IErr cls => b2n (String.eqb (err_class res) cls)
+      | _, IOk _ => 1%nat
+      end in
+  let tie_evals :=
+      match model, impl with
+      | Ok m, IOk t =>
+          map (fun ac => let s : env := map (fun kv => (fst kv, ENum (snd kv))) (fst ac) in
+                         b2n (String.eqb (err_class (evaluate s t)) (snd ac))) evals
+      | _, _ => []
+      end in
+  let spec :=
+      map (fun ac =>
+             let rho := envQ (fst ac) (dfltQ 0) in
+             let v := den_src rho (S (height r)) true "" r [] [] [] in
+             let outcome := match impl with IErr cls => cls | IOk _ => snd ac end in
+             match any_mismatch (S (height r)) v with
+             | Some true => b2n (String.eqb outcome "BartiqCompilationError")     (* must be detected *)
+             | Some false => match impl with
+                             | IOk _ => b2n (String.eqb outcome "ok")             (* must not be rejected *)
+                             | IErr _ => 1%nat                                    (* compilation may fail only if sizes differ for every assignment *)
+                             end
+             | None => 2%nat
+             end) evals in
+  (tie_compile_cls :: tie_evals, spec).
